@@ -64,11 +64,31 @@ GENERIC = {
         "def h(o: Optional[int]) -> int:\n    z: int = o\n    return o + 1  # type: ignore\n"
         "def k() -> int:\n    pass\n"
         "w: List = []\nb = b'x' == 'x'\n1 + ''  # type: ignore[operator]\n"
-        "n = m1.nope\nimport missing_mod\nfrom m1 import reexp\n",
+        "n = m1.nope\nimport missing_mod\nfrom m1 import reexp\n"
+        # messages that collide in everything except what a display option shows (same text twice on one line at
+        # different columns; same text on two lines; a multi-line expression for end positions)
+        "def need_int(x: int) -> None: ...\n"
+        "need_int('a'); need_int('b')\n"
+        "need_int('c')\nneed_int('d')\n"
+        "class K:\n    def meth(self) -> None:\n        need_int('e'); need_int(\n            'f')\n",
         {"m1.py": "from typing import Any\nBase: Any\nfrom m2 import reexp\ndef dec(f): return f\n",
          "m2.py": "reexp = 1\n"},
     ),
 }
+
+# The same kind of content inside a package module that is only reached by import, so that per-module
+# sections of every pattern shape (concrete, structured wildcard, unstructured globs) apply to a module
+# that is NOT the command-line file.
+PKG_MOD = GENERIC["g1"][0].replace("import m1\n", "import m1x as m1\n")
+GENERIC_PKG = {
+    "g2": ("import pkg.sub.mod\n",
+           {"pkg/__init__.py": "", "pkg/sub/__init__.py": "", "pkg/sub/mod.py": PKG_MOD,
+            "m1x.py": GENERIC["g1"][1]["m1.py"], "m2.py": GENERIC["g1"][1]["m2.py"]}),
+}
+SECTION_SHAPES = [("pkg.sub.mod", "ini-concrete"), ("pkg.*", "ini-structured"), ("pkg.*.mod", "ini-glob-mid"),
+                  ("*.sub.*", "ini-glob-lead")]
+# option sets used as additional bases so that flags are also toggled in the presence of display options
+DISPLAY_BASE = ["--show-error-code-links", "--show-error-context", "--show-column-numbers", "--show-error-end"]
 
 
 def flag_table() -> tuple[list[str], dict[str, str]]:
@@ -300,6 +320,11 @@ def programs_table_sweep(ctx: Ctx, table: list[str]) -> list[dict]:
         bases.append((gid, f, []))
         bases.append((gid + "+strictish", f, ["--check-untyped-defs", "--warn-unreachable", "--warn-unused-ignores",
                                                 "--strict-equality", "--warn-return-any"]))
+        bases.append((gid + "+display", f, list(DISPLAY_BASE)))
+    for gid, (main, extra) in GENERIC_PKG.items():
+        f = {"main.py": main}
+        f.update(extra)
+        bases.append((gid, f, []))
     files = seeded_order(corpus.files_matching("check-*.test"), ctx.seed)
     n_files = 4 if ctx.quick else 40
     per_file = 4 if ctx.quick else 12
@@ -334,6 +359,25 @@ def programs_table_sweep(ctx: Ctx, table: list[str]) -> list[dict]:
                 pairs.append((flag, base, base + [flag]))
         # config-file spellings of the same booleans: [mypy] and [mypy-main] sections
         root_files = {}
+        if pid in GENERIC_PKG:
+            # per-module sections of every pattern shape for every flag mypy accepts per module
+            from mypy.options import PER_MODULE_OPTIONS
+
+            pairs = []
+            for flag in table:
+                key = flag[2:].replace("-", "_")
+                base_key = key[3:] if key.startswith("no_") else key
+                if base_key not in PER_MODULE_OPTIONS and key not in PER_MODULE_OPTIONS and \
+                        key.replace("allow_", "disallow_", 1) not in PER_MODULE_OPTIONS and \
+                        key.replace("disallow_", "allow_", 1) not in PER_MODULE_OPTIONS:
+                    continue
+                for pat, tag in SECTION_SHAPES:
+                    fn = f"cfg_{tag}_{key}.ini"
+                    root_files[fn] = f"[mypy]\n[mypy-{pat}]\n{key} = True\n"
+                    pairs.append((f"{flag}@{tag}", base, base + ["--config-file", fn]))
+            progs.append({"pid": f"sweep:{pid}", "files": f, "pairs": pairs, "three_step": False,
+                          "root_files": root_files})
+            continue
         if pid in GENERIC or ctx.thorough:
             from mypy.main import invert_flag_name  # noqa: F401
 
